@@ -312,6 +312,8 @@ func c10Check(c *Ctx, m map[string]interface{}, key string, val interface{}, asS
 		}
 	}
 	c.Outcome(fmt.Sprintf("%d|%s", count, dump(map[string]interface{}(mv))))
+	// the updated Map stays with the caller: later calls (on any Map) must leave it as it is now
+	c.RetainTree("Map.UpdateValuesForPath", map[string]interface{}(mv), cas)
 	return count > 0
 }
 
@@ -325,7 +327,7 @@ func keysOf(m map[string]bool) []string {
 
 func c10Run(c *Ctx) {
 	mustBeDefault(c)
-	c.S.Rule = "cases = (Map, new value, path, sub-keys): every Map template with <= N nodes over keys {a,ab,k} (lists, list-in-list, empty containers) x new value {k|ab : \"NEW\" | {\"nk\":\"NEW\"}} given as map and as 'key:value[:type]' string x every path of <= 3 steps over {a,b,k,z,*} (both addressing forms) x sub-key sets {none, presence, negated presence, value, typed}; oracle is relational on a deep copy taken before the call: frame, location (against reference addressed set), sub-keys, count, count-copies. Each case under ascending and descending map order; cases with wildcards additionally under every single order deviation (E-choice bound 1) for the smaller Maps. non-trivial = count > 0."
+	c.S.Rule = "cases = (Map, new value, path, sub-keys): every Map template with <= N nodes over keys {a,ab,k} (lists, list-in-list, empty containers) x new value {k|ab : \"NEW\" | {\"nk\":\"NEW\"}} given as map and as 'key:value[:type]' string x every path of <= 3 steps over {a,b,k,z,*} (both addressing forms) x sub-key sets {none, presence, negated presence, value, typed}; oracle is relational on a deep copy taken before the call: frame, location (against reference addressed set), sub-keys, count, count-copies. Each case under ascending and descending map order; cases with wildcards additionally under every single order deviation (E-choice bound 1) for the smaller Maps. Updated Maps are retained (last 4) and re-checked deeply after every later call. non-trivial = count > 0."
 	c.S.Assumptions = []string{"insertion of key k into an addressed map that lacks it is accepted (and counted iff it happens)", "addressed set computed by the reference walker (one-level reading; both readings accepted for list-in-list Maps)", "negated sub-key on absent key: both readings accepted"}
 	n1, n2, ech := 5, 5, 4
 	if c.Thorough {
